@@ -19,7 +19,8 @@ CLAIMS = {
                  "interpreter.rs returns exactly the value of an independent denotational semantics (Spec/Semantics.v), by induction over "
                  "unbounded trees; plus the clauses the property names (null for absent/wrongly-typed subjects, nulls dropped, one-level flatten, "
                  "short-circuit, truthiness with 0 truthy, ascending key order, last duplicate wins). Correspondence: random core trees x documents "
-                 "on hand-built ASTs, compliance expressions x documents end to end; every evalast case also against the extracted specification.",
+                 "on hand-built ASTs, compliance expressions and random sentences x documents end to end; every evalast case also against the extracted "
+                 "specification, every search case also against the reference parser (documented binding powers) followed by the evaluator.",
                  "5 (C01), 4.2", "Unmodelled: slicing an array of 2^31 or more elements. Comparison nodes delegate to C10's model.",
                  "Coq proof (interpreter model = denotational semantics) + model/spec/implementation correspondence"),
     "C02": claim("Theorems (Props/C02.v): the sorting routine behind sort/sort_by is a permutation, ascending on total preorders and stable; "
@@ -99,9 +100,13 @@ CLAIMS = {
                  "registry and its document; searches leave no trace; clones and re-used expressions behave like fresh ones. Correspondence on seeded "
                  "histories + the purity law evaluated on the implementation + input value unchanged.", "5 (C13)"),
     "C14": claim("Theorems (Props/C14.v): the library's Serializer and serde_json's Value serializer (both modelled from source) agree on every "
-                 "string-keyed value of serde's data model; non-finite floats -> null; the four enum shapes; a library value round-trips. Decoding: "
-                 "30 Rust target types x fitting and near-miss values, T::deserialize(Variable) vs serde_json::from_value.",
-                 "5 (C14)", "Partial: the decoding half is decided against serde_json itself (third-party oracle), not modelled."),
+                 "string-keyed value of serde's data model; non-finite floats -> null; the four enum shapes; a library value round-trips. Decoding "
+                 "(Decode.v: impl Deserializer for Variable driven by serde's visitors over a universe of type descriptions): a typed value survives "
+                 "Serializer + Deserializer for every type description and every value the JSON image can carry, by induction over nested descriptions; "
+                 "integer targets are range-checked; the limits of the JSON image as theorems. Correspondence: the decoder model vs the library vs "
+                 "serde_json on 39 target types x type-directed fitting and near-miss values (decoded values observed structurally), 43 types vs serde_json.",
+                 "5 (C14)", "Partial: that the decoder equals serde_json's on every input is by correspondence (both are third-party visitors); the map "
+                 "clause of the round trip covers key types whose order agrees with the order of the spelled keys."),
     "C15": claim("Theorems (Props/C15.v): lookup after any register/deregister/register-builtins history = latest live binding (custom functions "
                  "shadow builtins, fresh runtime empty, the 26 builtin names); call protocol (arguments left to right, exprefs unevaluated, lookup after "
                  "arguments, unknown-function at the call); custom functions receive the evaluated arguments and are validated first. "
